@@ -5,6 +5,8 @@ k, or a timeout, or EOF at the end); state = reflective snapshot of the real Web
 cursor + observations so far. A timeout that leaves the parser unchanged leads to an already visited state,
 so the fixpoint covers all positions and multiplicities of timeouts.
 """
+import ssl as _ssl
+
 from .. import lib, env
 from ..explore import Explorer, Violation, replay as replay_choices
 from ..ref import rfc6455 as R
@@ -111,6 +113,12 @@ def tasks(tier, seed):
             ts.append({"name": "%s/recv/full16" % s, "stream": s, "driver": "recv", "bound": None, "kinds": kinds, "hs": False, "full_upto": 16})
         ts.append({"name": "text16/recv/full16", "stream": "text16", "driver": "recv", "bound": None, "kinds": ["timeout"], "hs": False, "full_upto": 16})
     ts.append({"name": "hs+big/recv", "stream": "big", "driver": "recv", "bound": 1, "kinds": kinds, "hs": True})
+    # a non-blocking connection (settimeout(0)): the transport answers EAGAIN / SSLWantReadError wherever a blocking one would have timed out
+    for s in SMALL:
+        for d in (["recv", "recv_frame"] if tier == "quick" else DRIVERS):
+            if d == "iter":
+                continue
+            ts.append({"name": "nonblocking/%s/%s" % (s, d), "stream": s, "driver": d, "bound": None, "kinds": kinds, "hs": False, "nonblocking": True})
     # "for msg in ws" (a generator cannot be resumed after an exception): segmentation only
     for s in ["frag-ping", "two"]:
         ts.append({"name": "%s/iter" % s, "stream": s, "driver": "iter", "bound": None, "kinds": [], "hs": False})
@@ -181,6 +189,15 @@ class Harness:
         return sorted({1, 2, 3, m // 2, m - 2, m - 1, m})
 
     def __call__(self, ch):
+        if self.desc.get("nonblocking"):
+            env.install_selectors()
+            try:
+                return self.run(ch)
+            finally:
+                env.uninstall_selectors()
+        return self.run(ch)
+
+    def run(self, ch):
         lib.reset_globals()
         shim = env.install_urandom("counter")
         desc = self.desc
@@ -192,7 +209,7 @@ class Harness:
             if st["phase"] == "handshake":
                 return [("data", min(n, avail))] if avail else [("eof",)]
             st["npoints"] += 1
-            to = [("timeout", k) for k in H.kinds]
+            to = [("timeout", k) for k in H.kinds] if not desc.get("nonblocking") else [("wouldblock", k) for k in ("eagain", "want-read")]
             if st["npoints"] > H.depth_cap:
                 H.capped = True
                 to = []
@@ -226,6 +243,8 @@ class Harness:
             st["phase"] = "frames"
         else:
             ws = env.make_ws(sock)
+        if desc.get("nonblocking"):
+            ws.settimeout(0)  # a non-blocking connection: "nothing there yet" is EAGAIN / SSLWantReadError instead of a timeout
         nwritten = 0
         driver = self.driver
         it = iter(ws) if driver == "iter" else None
@@ -245,7 +264,9 @@ class Harness:
                     fr = ws.recv_frame()
                     v = (fr.fin, fr.opcode, fr.data)
                 exc = None
-            except lib.websocket.WebSocketTimeoutException as e:
+            except (lib.websocket.WebSocketTimeoutException, BlockingIOError, _ssl.SSLWantReadError) as e:
+                if not isinstance(e, lib.websocket.WebSocketTimeoutException) and not desc.get("nonblocking"):
+                    raise
                 if (was_connected and not ws.connected) or ws.sock is None or sock.closed:
                     raise Violation({"kind": "timeout-broke-connection", "driver": driver},
                                     "after a receive timeout connected=%r sock=%r transport.closed=%r" % (
